@@ -325,25 +325,19 @@ def run(ck):
     ck.floor('R14.6', n_u, 3, 'Option-returning units in uigen::binding')
 
     # ---- R14.7 the header is written whenever support code exists: no early success return in generate_ui_file ----
-    ck.rule('R14.7', 'in generate mode the header write is reached whenever the form was serialized (no early Ok return)')
+    ck.rule('R14.7', 'in generate mode the header write is reached (or the header compared equal) on every successful path that has support code')
     guf = F.bin.fn('generate_ui_file')
     if guf is None:
         ck.floor('R14.7', 0, 1, 'fn generate_ui_file')
     else:
-        early = [r for r in walk(guf['body']) if r.get('k') == 'Ret' and r.get('e', {}).get('k') == 'Call' and (r['e'].get('def') or '').endswith('Result::Ok')]
-        ck.ob('R14.7', 'no-early-success-return', not early, F.bin.loc(early[0]) if early else F.bin.loc(guf['body']),
-              'generate_ui_file only returns Ok at its end' if not early else 'an early `return Ok(..)` can skip the support-header write')
-        hw = [c for c in H.calls_in(guf['body']) if c.get('m') == 'write_header']
-        ok = False
-        if hw:
-            for anc in H.ancestors(guf, hw[0]):
-                if anc.get('k') == 'If' and anc['c'].get('k') == 'LetCond' and pp(anc['c']['pat']).startswith('Some('):
-                    # the if-let is a direct statement of the fn body block (not nested in another condition)
-                    par = H.parents(guf).get(id(anc))
-                    while par is not None and par.get('k') in ('Semi', 'Expr'):
-                        par = H.parents(guf).get(id(par))
-                    ok = par is guf['body']
-        ck.ob('R14.7', 'header-block-unconditional', ok, F.bin.loc(hw[0]) if hw else '', '`if let Some(ui_support) = ..` is a top-level statement of generate_ui_file')
+        # decided path-wise by C15 R15.4 on the same facts: on every path of generate_ui_file that succeeds and has support code, the header
+        # is written or compared equal (an early `return Ok(())` in front of it shows up there as a path that keeps a stale header)
+        import core as _core
+        import rules.c15 as c15
+        s15 = _core.Shared(ck, 'R14.7', lambda r, k: (r == 'R15.4' and k.endswith('|skipped-only-if-same-bytes')) or (r == 'R15.5' and k in ('header-only-if-support-code', 'header-path-gets-header', 'both-outputs-written')), 'C15:',
+                           ' [in generate mode the support header is produced whenever there is support code]')
+        c15.run(s15)
+        ck.floor('R14.7', s15.count, 5, 'shared C15 R15.4 / R15.5 obligations on the header write')
 
     # ---- R14.8 Reject: every selected binding and every callback is an error, on every path ----------------------------------------------
     ck.rule('R14.8', 'in Reject mode every binding Generate mode would translate is an error, on every path; Generate skips no object')
